@@ -42,8 +42,16 @@ def member_guarded(p: POp, rec: sym.Record) -> Optional[str]:
         if e.seq < p.seq and e.kind in ("mut-call", "sub-store") and (e.path in (p.base, p.path) or e.base in (p.base, p.path)):
             same_key = (e.kind == "sub-store" and e.key == p.key) or \
                        (e.kind == "mut-call" and e.key == "setdefault" and e.args and e.args[0] == p.key)
-            if same_key and set(e.pc) <= set(p.pc) and tuple(p.loops[:len(e.loops)]) == tuple(e.loops):
-                return "the key was stored into the table earlier on every path"
+            if same_key and tuple(p.loops[:len(e.loops)]) == tuple(e.loops):
+                extra = [c for c in e.pc if c not in p.pc]
+                # stored unconditionally, or stored exactly on the paths where the key was missing
+                tables = {p.base, p.path} - {None}
+                def absent(c, pol):
+                    atom, apol = render.norm_bool(c)
+                    eff = pol if apol else not pol
+                    return atom.op == "cmp" and atom.a[0] == "in" and atom.a[1] == p.key and atom.a[2] in tables and eff is False
+                if all(absent(c, pol) for c, pol in extra):
+                    return "the key was stored into the table earlier on every path where it was missing"
     # iteration facts
     if p.key.op == "elem":
         it = p.key.a[0]
@@ -60,6 +68,8 @@ def member_guarded(p: POp, rec: sym.Record) -> Optional[str]:
         lr = rec.loops.get(lid)
         if lr is None or lr.iter is None:
             continue
+        if lr.target is not None and p.key == lr.target and lr.iter_path is not None and lr.iter_path in ({p.base, p.path} - {None}):
+            return "key comes from iterating the same table"
         it = lr.iter
         for table in {p.base, p.path} - {None}:
             # inside `for _ in Q.get(k0, {})`: the body only runs when Q has k0 (default is empty)
